@@ -61,7 +61,9 @@ class ForLoop:
         self.name = i.name
         self.indexed_symbols = OrderedDict()
 
-    def register_indexed_symbol(self, e, index_function, transpose, tree, index_expr=None):
+    def register_indexed_symbol(
+        self, e, index_function, transpose, tree, index_expr=None, dim=None
+    ):
         if isinstance(index_expr, ca.MX) and index_expr is not self.index_variable:
             F = ca.Function("index_expr", [self.index_variable], [index_expr])
             # expr = lambda ar: np.array([F(a)[0] for a in ar], dtype=int)
@@ -70,6 +72,20 @@ class ForLoop:
             indices = np.array(res[0].T, dtype=int)
         else:
             indices = self.values
+        if dim is not None and np.size(indices) > 0:
+            # Modelica indexing starts from one. Without this check an index of
+            # zero or below would silently wrap around to the end of the array.
+            if np.min(indices) < 1 or np.max(indices) > dim:
+                raise ValueError(
+                    "Index {} of symbol {} is out of bounds in for loop over {}. "
+                    "Index should be in range [1,{}] "
+                    "(Modelica uses 1-based indexing).".format(
+                        int(np.min(indices)) if np.min(indices) < 1 else int(np.max(indices)),
+                        tree.name,
+                        self.name,
+                        dim,
+                    )
+                )
         self.indexed_symbols[e] = ForLoopIndexedSymbol(tree, transpose, index_function(indices - 1))
 
 
@@ -900,6 +916,21 @@ class Generator(TreeListener):
                         sl = sl - 1
                     elif isinstance(sl, slice):
                         # Modelica indexing starts from one;  Python from zero.
+                        if (isinstance(sl.start, int) and sl.start < 1) or (
+                            isinstance(sl.stop, int) and isinstance(dim, int) and sl.stop > dim
+                        ):
+                            symbol_name = (
+                                s.name()
+                                if len(tree.indices) == 1
+                                else s.name().split(".")[i] + " in nested symbol " + s.name()
+                            )
+                            raise ValueError(
+                                "Slice {}:{} of symbol {} is out of bounds. "
+                                "Slice should be within range [1,{}] "
+                                "(Modelica uses 1-based indexing).".format(
+                                    sl.start, sl.stop, symbol_name, dim
+                                )
+                            )
                         sl = slice(None if sl.start is None else sl.start - 1, sl.stop, sl.step)
                     else:
                         for_loop = self.for_loops[-1]
@@ -908,6 +939,7 @@ class Generator(TreeListener):
 
         if for_loop is not None:
             if isinstance(indices[0], ca.MX):
+                loop_dim = s.size1()
                 if len(indices) > 1:
                     s = s[:, indices[1]]
                     indexed_symbol = _new_mx(
@@ -927,9 +959,10 @@ class Generator(TreeListener):
                 # map the for loop over it
                 if np.prod(s.shape) != 0:
                     for_loop.register_indexed_symbol(
-                        indexed_symbol, index_function, True, tree, indices[0]
+                        indexed_symbol, index_function, True, tree, indices[0], loop_dim
                     )
             else:
+                loop_dim = s.size2()
                 s = ca.transpose(s[indices[0], :])
                 indexed_symbol = _new_mx(
                     "{}[{},{}]".format(tree.name, indices[0], for_loop.name), s.size2()
@@ -937,7 +970,7 @@ class Generator(TreeListener):
 
                 if np.prod(s.shape) != 0:
                     for_loop.register_indexed_symbol(
-                        indexed_symbol, lambda i: (indices[0], i), False, tree, indices[1]
+                        indexed_symbol, lambda i: (indices[0], i), False, tree, indices[1], loop_dim
                     )
             return indexed_symbol
         else:
